@@ -207,10 +207,11 @@ Proof. intros k b v b' [S _] E. exact (G_range k b v b' S E). Qed.
     and equal side to move give equal alpha_beta_minimax values *)
 Lemma GS_keydet : forall p q alpha beta d v w,
   GoodS d p -> GoodS d q -> hash p = hash q -> maximize (turn p) = maximize (turn q) ->
+  clock_tag p d = clock_tag q d ->
   Search.ab T rook_t bishop_t d p alpha beta (maximize (turn p)) = Ok (v, p) ->
   Search.ab T rook_t bishop_t d q alpha beta (maximize (turn q)) = Ok (w, q) -> v = w.
 Proof.
-  intros p q alpha beta d v w [Sp Hp] [Sq Hq] HH HM Ep Eq.
+  intros p q alpha beta d v w [Sp Hp] [Sq Hq] HH HM _ Ep Eq.
   pose proof (ab_key_det_mx T rook_t bishop_t Sb d p q alpha beta Sb_cf Hp Hq
                 (Sound_searchable _ _ _ d p Sp) (Sound_searchable _ _ _ d q Sq) HH HM) as E.
   unfold ab_value in E. rewrite Ep, Eq in E. inversion E. reflexivity.
